@@ -278,12 +278,15 @@ pub async fn copy_bidi(ctx: ContextRef, params: &IoParams) -> Result<(), Error> 
         if has_raw_fd(&*client) && has_raw_fd(&*server) && params.use_splice {
             #[cfg(target_os = "linux")]
             {
+                // duplicating a descriptor fails when the process is out of them: that ends this tunnel only
                 let craw = into_owned_fd(client);
                 let sraw = into_owned_fd(server);
-                csrc.rawfd = Some(AsyncFd::new(craw.try_clone().unwrap()).unwrap());
-                cdst.rawfd = Some(AsyncFd::new(craw).unwrap());
-                ssrc.rawfd = Some(AsyncFd::new(sraw.try_clone().unwrap()).unwrap());
-                sdst.rawfd = Some(AsyncFd::new(sraw).unwrap());
+                let craw2 = craw.try_clone().context("dup client fd")?;
+                let sraw2 = sraw.try_clone().context("dup server fd")?;
+                csrc.rawfd = Some(AsyncFd::new(craw2).context("register client fd")?);
+                cdst.rawfd = Some(AsyncFd::new(craw).context("register client fd")?);
+                ssrc.rawfd = Some(AsyncFd::new(sraw2).context("register server fd")?);
+                sdst.rawfd = Some(AsyncFd::new(sraw).context("register server fd")?);
             }
         } else {
             let (csr, csw) = tokio::io::split(client);
